@@ -38,7 +38,10 @@ static void mode_c06() {
         double zs = r.logu(1e-2, 1e3);
         for (size_t k = 0; k < s.N; k++) s.Z[k] = {(float)(zs * r.uni(-1, 1)), (float)(zs * r.uni(-1, 1))};   // garbage in the upper half too
         s.Z[s.N / 2] = 0;    // the oracle takes no side on the top bin
-        M.begin_case(c, "c06 " + s.descr());
+        // a quarter of the cases: a table that ends early (short impedance file, zero-filled), always asked after another profile's wake
+        bool sparse = (c % 4 == 3);
+        if (sparse) { size_t k0 = (size_t)r.range(1, (int64_t)s.N / 2 - 1); for (size_t k = k0; k < s.N; k++) s.Z[k] = 0; M.ev("impedances_ending_early"); }
+        M.begin_case(c, "c06 " + s.descr() + (sparse ? " sparse" : ""));
         auto ps = make_grid(s);
         std::vector<double> rho;
         int flavour = (int)r.range(0, 2);
@@ -47,10 +50,10 @@ static void mode_c06() {
         ElectricField ef(ps, imp, s.buckets, s.spacing, nullptr, s.frev, (meshaxis_t)s.revpart, s.Ib, s.E0, s.sE, s.dt);
         // the wake must not depend on what the object was asked before: in half of the cases request the CSR
         // spectrum (and a wake of another profile) first
-        bool history = r.chance(0.5);
+        bool history = r.chance(0.5) || sparse;
         if (history) {
             ef.updateCSR(r.chance(0.5) ? 0 : (frequency_t)1e10);
-            if (r.chance(0.5)) { std::vector<double> other; Rng r2 = r; set_profiles(r2, ps, s, other, (flavour + 1) % 3); ef.wakePotential(); ef.updateCSR(0);
+            if (r.chance(0.5) || sparse) { std::vector<double> other; Rng r2 = r; set_profiles(r2, ps, s, other, (flavour + 1) % 3); ef.wakePotential(); ef.updateCSR(0);
                                  for (uint32_t b = 0; b < s.nb; b++) { boost::multi_array<projection_t, 1> p(boost::extents[s.n]); for (uint32_t x = 0; x < s.n; x++) p[x] = (float)rho[(size_t)b * s.n + x]; ps->setProjection(0, b, p); } }
             M.ev("fields_with_call_history");
         }
